@@ -77,6 +77,14 @@ PROPS = {
     "C16": dict(runs=[oph("^Harness_C16_"), opc("^Harness_C16_")],
                 bounds=["states constructed through the keepers' own setters on an empty chain: L1: 0..1 (quick) / 0..2 (thorough) bridges with consecutive ids, each with 1..m batch infos, 0..m token pairs, outputs, claims; L2: 0..2 validators with powers, both sequences, bridge info present/absent, 0..m denom pairs", "all contents symbolic"],
                 outside=["larger states", "JSON canonical form / byte-level encoding of the genesis file"], assumptions=COMMON_ASSUME),
+    "C08": dict(runs=[dict(pkg="./x/opchild/keeper,./x/ophost/keeper",
+                           overlays=[("./x/opchild/keeper", "harness/opchild"), ("./x/opchild/keeper", "harness/opchild_c08"), ("./x/ophost/keeper", "harness/ophost")],
+                           harness="^Harness_C08_", pkgname="keeper", native=["rt.go.tmpl", "opchild_keeper.go.tmpl", "opchild_joint.go.tmpl"],
+                           extra_native=[("./x/ophost/keeper", "keeper", ["rt.go.tmpl", "ophost_keeper.go.tmpl"])])],
+                level_text="Bounded symbolic model checking of both modules together: one full relay round trip (L1 deposit -> L2 finalization; L2 withdrawal -> honest output -> L1 claim) is executed with the real handlers of x/ophost and x/opchild over two independent symbolic chain states, the executor being harness code that copies the emitted event fields; z3 must show the solvency invariant J (escrow = L2 supply + in-flight value, denom mapping = derivation) again after the round trip for all values within the bounds.",
+                bounds=["one deposit round trip and one withdrawal round trip from arbitrary joint states satisfying J (inductive steps)", "one bridged denom observed; single-leaf withdrawal tree (C04 covers larger trees); no hook payload (C07/C09 cover hooks)", "one configured executor"],
+                outside=["relay schedules other than in-order delivery of the next deposit (C06 shows other deliveries are no-ops or rejected)", "the drain/liveness half beyond one round trip", "dishonest outputs (C03/C05)"],
+                assumptions=COMMON_ASSUME + ["the executor relays the emitted event fields faithfully", "J and the denom-mapping invariant hold in the pre-state (re-established by the two harnesses)", "'l2/'+64 hex digits is a valid denom"]),
     "C15": dict(runs=[opc("^Harness_C15_")],
                 level_text="Bounded symbolic model checking of the OPinit-owned part of the oracle path: the message handler, L2OracleHandler.UpdateOracle, ValidateVoteExtensions, GetOracleVotes, WritePrices and the host-validator store are executed from go/ssa; connect's codecs, its vote aggregator (per-pair two-thirds median over distinct validators) and ed25519 are stubs (arbitrary deterministic functions), so the claim is about what OPinit's own code guarantees given any behaviour of those.",
                 bounds=["handler step: 0..1 votes, 0..1 recorded L1 validators, 0..1 registered currency pairs, aggregated map with/without the timestamp pair plus 0..1 other pairs (nil or non-nil price)", "signature validation on its own: exactly 2 (quick) / 3 (thorough) votes over 0..2 recorded validators, votes may repeat a validator", "host validator set replacement: 0..2 stored, 0..2 new validators"],
